@@ -1,0 +1,25 @@
+//go:build verif
+
+package main
+
+// Contracts for the verifier in /verif (comment-only; compiled only with -tags verif).
+// The driver is one more front end of the library (C20): what is checked here is that it uses the
+// library within the library's own preconditions - in particular that the context is set before
+// Prepare, which is when the machine receives it (C09).
+
+//@ func (r *runCmd) Run(file string)
+//@   tags C20 C09
+//@   panics maybe
+
+//@ func (l *lexCmd) Lex(file string)
+//@   tags C20
+//@   panics maybe
+//@ loop 1 invariant lexcmd.lexer: lex != nil && lexOK(lex) && chOK(lex)
+
+//@ func (p *parseCmd) Parse(file string)
+//@   tags C20
+//@   panics maybe
+
+//@ func (b *bytecodeCmd) Run(file string)
+//@   tags C20
+//@   panics maybe
